@@ -86,7 +86,7 @@ func TestC32_AggregateAgreesWithIndividual(t *testing.T) {
 				k := rapid.IntRange(1, n).Draw(t, "howMany")
 				for c := 0; c < k; c++ {
 					i := rapid.IntRange(0, n-1).Draw(t, "i")
-					sigs[i], _ = vBLS(42+c%3).Sign(msgs[i])
+					sigs[i], _ = vBLS(42 + c%3).Sign(msgs[i])
 					pos = append(pos, i)
 				}
 			case "msg":
